@@ -70,6 +70,15 @@ const (
 	c16Shared = c16Key("shared")
 )
 
+// c16Deadlined reports a deadline (enforced by whoever made it, far in the future) on top of a
+// cancellable context: everything but Deadline is the inner context's.
+type c16Deadlined struct {
+	context.Context
+	dl time.Time
+}
+
+func (c c16Deadlined) Deadline() (time.Time, bool) { return c.dl, true }
+
 func c16Own(i int) c16Key { return c16Key(fmt.Sprintf("own%d", i)) }
 
 // c16DrawInput builds input i: it carries Value(shared)=100+i and Value(own<i>)=200+i.
@@ -111,6 +120,13 @@ func c16DrawInputN(i int, allowNever bool) *c16In {
 			simrt.Probe("own_cancellation_over_live_context")
 		}
 		in.ctx, in.cancel = d, func() { d.cancel(); _ = c }
+	case x < 10 && simrt.Chance(1, 3):
+		// reports a deadline far away (no timer of its own, so it cannot expire in a run), each input's a
+		// little later than the previous one's; ended by its cancel function like any other
+		in.kind = 6
+		inner, c := context.WithCancel(base)
+		in.ctx, in.cancel = c16Deadlined{inner, simrt.Epoch.Add(time.Hour + time.Duration(i)*time.Minute)}, c
+		simrt.Probe("far_deadline_input")
 	default:
 		in.kind = 3
 		d := time.Duration(simrt.DrawRange(1, 20)) * time.Microsecond
